@@ -121,7 +121,7 @@ def run(rep, tier, seed, rng):
         for r in (x, y):
             if r["tags"] & {"crash", "rc", "predicted-panic", "ninja", "configured", "modules", "order", "nobuilds"}:
                 ndis += 1
-                rep.violation("model and implementation disagree: " + "; ".join(r["dis"])[:300], gen_common.replay_data(r), found_input=False)
+                rep.violation("model and implementation disagree: " + "; ".join(r["dis"])[:300], gen_common.replay_data(r), found_input=("crash" in r["tags"]))
         same_rc = x["impl"]["rc"] == y["impl"]["rc"]
         bx = sorted((q["builder"], q["app"], q["out"]) for q in x["impl"]["builds"]); by = sorted((q["builder"], q["app"], q["out"]) for q in y["impl"]["builds"])
         if not same_rc or x["impl_raw"]["ninja"] != y["impl_raw"]["ninja"] or bx != by:
